@@ -17,14 +17,15 @@ import (
 )
 
 type refErr struct {
-	hard bool
-	msg  string
+	hard    bool
+	msg     string
+	invalid bool // emulation of a recorded defect only: the implementation returns ErrInvalid here
 }
 
-func soft(msg string) *refErr { return &refErr{false, msg} }
-func hard(msg string) *refErr { return &refErr{true, msg} }
+func soft(msg string) *refErr { return &refErr{hard: false, msg: msg} }
+func hard(msg string) *refErr { return &refErr{hard: true, msg: msg} }
 
-var errStop = &refErr{false, "stop"} // early exit requested by the consumer
+var errStop = &refErr{msg: "stop"} // early exit requested by the consumer
 
 type tv int
 
@@ -635,6 +636,9 @@ func (c *refCtx) compare(op string, a, b any) (tv, *refErr) {
 	case refDT:
 		y, ok := b.(refDT)
 		if !ok {
+			if c.hasQuirk("datetime-vs-other-errinvalid") {
+				return tvU, &refErr{hard: true, invalid: true, msg: "unrecognized SQL/JSON datetime type (recorded defect)"}
+			}
 			return tvU, nil
 		}
 		cmp, comparable, err := c.cmpDT(x, y)
@@ -974,6 +978,8 @@ func (o refOut) class() string {
 	switch {
 	case o.err == nil:
 		return "ok"
+	case o.err.invalid:
+		return "invalid"
 	case o.err.hard:
 		return "hard"
 	}
@@ -991,4 +997,38 @@ func refQuery(p Path, c *refCtx) refOut {
 		items = []any{}
 	}
 	return refOut{items: items, err: err, declined: c.declined, multiObj: c.multiObj, inexact: c.inexactDiv}
+}
+
+// refExists: the reference outcome of Exists. class: ok | soft | hard | null.
+func refExists(p Path, c *refCtx, silent bool) (class string, val bool, declined string, multi bool) {
+	c.strict = p.Strict
+	c.ignoreSE = !p.Strict
+	found := false
+	var err *refErr
+	if c.hasQuirk("unary-nonnumeric-exists-true") && !p.Strict && (p.E.K == KNeg || p.E.K == KPos) && len(p.E.Steps) == 0 {
+		var seq []any
+		seq, err = c.collect(p.E.A, true)
+		found = len(seq) > 0
+	} else {
+		err = c.eval(p.E, func(any) *refErr {
+			found = true
+			if !p.Strict {
+				return errStop
+			}
+			return nil
+		})
+		if err == errStop {
+			err = nil
+		}
+	}
+	declined, multi = c.declined, c.multiObj
+	switch {
+	case err == nil:
+		return "ok", found, declined, multi
+	case err.hard:
+		return "hard", false, declined, multi
+	case silent:
+		return "null", false, declined, multi
+	}
+	return "soft", false, declined, multi
 }
